@@ -445,6 +445,10 @@ fn decode_any<R: Read>(decoder: &str, r: R) -> Result<String, String> {
     match decoder {
         "bin" => rbx_binary::from_reader(r).map(|d| stable_digest(&d)).map_err(|e| e.to_string()),
         "xml" => rbx_xml::from_reader(r, crate::rt::xml_options(XmlMode::Unknown).1).map(|d| stable_digest(&d)).map_err(|e| e.to_string()),
+        // the other decode behaviours (each has its own path for a property the database does not know, or knows but never serializes)
+        "xml-strict" => rbx_xml::from_reader(r, rbx_xml::DecodeOptions::new().property_behavior(rbx_xml::DecodePropertyBehavior::ErrorOnUnknown)).map(|d| stable_digest(&d)).map_err(|e| e.to_string()),
+        "xml-default" => rbx_xml::from_reader(r, rbx_xml::DecodeOptions::new()).map(|d| stable_digest(&d)).map_err(|e| e.to_string()),
+        "xml-noreflect" => rbx_xml::from_reader(r, crate::rt::xml_options(XmlMode::NoReflection).1).map(|d| stable_digest(&d)).map_err(|e| e.to_string()),
         _ => rbx_dom_weak::types::Attributes::from_reader(r)
             .map(|a| format!("{:016x}", canon::digest(&canon::attributes(&a, &|_| J::Null))))
             .map_err(|e| e.to_string()),
